@@ -69,6 +69,9 @@ def emit(vf, exp, path, fr, ind):
     if len(clauses) != len(names):
         raise vgen.ToolLimit('msm proof file: %d ensures clauses, expected %d' % (len(clauses), len(names)))
     sp.ensures = [('l2.%s.encode.%s' % (pid, n), P if n in ('frame', 'err.too_many_cells', 'err.only_documented_errors') else {'C10'}, c) for n, c in zip(names, clauses)]
+    # the complete wire layout of the data segment (C10, encode side): the three masks, then the satellite rows and the cell rows, each a
+    # sorted permutation of the caller's list, column-major (rows_enc of the row fragments, proved on their encode_checked)
+    sp.ensures.append(('l2.%s.encode.rows_sorted_after_masks' % pid, {'C10', 'C01'}, LAYOUT % {'SATM': satmod, 'SIGM': sigmod, 'SAT': SAT, 'SIG': SIG}))
     sp.ensures.append(('l2.%s.encode.poison' % pid, set(), 'old(asm).poison() ==> final(asm).poison()'))
     sp.ensures.append(('l2.%s.encode.appends_enc' % pid, {'C01'}, ENC_POST_MSM))
     A = sp.inserts.append
@@ -94,13 +97,29 @@ def emit(vf, exp, path, fr, ind):
     A(('before', 'asm.put_U64(sat_mask, 64)?;', 0, ch['preput']))
     A(('after', 'asm.put_U64(cell_mask, cell_cont_len)?;', 0, ch['postput']))
     A(('before', 'Ok(())', 1, ch['final']))
+    # layout clause: witnesses from the row fragments' contracts
+    A(('before', 'return Ok(());', 0,
+       'proof { let e0 = Seq::<%(SAT)s>::empty(); let e1 = Seq::<%(SIG)s>::empty(); crate::lemma_bits_len(0, 0); '
+       'assert(%(SATM)s::rows_enc(e0) == Some(Seq::<bool>::empty())); assert(%(SIGM)s::rows_enc(e1) == Some(Seq::<bool>::empty())); '
+       'assert(value.satellite_data@ =~= e0 && value.signal_data@ =~= e1); '
+       'assert(asm.bits() =~= old(asm).bits() + crate::bits_of_int(0, 64) + crate::bits_of_int(0, 32) + crate::bits_of_int(0, 0) + %(SATM)s::rows_enc(e0)->Some_0 + %(SIGM)s::rows_enc(e1)->Some_0); '
+       'assert(layout_ok(value.satellite_data@, value.signal_data@, old(asm).bits(), asm.bits(), 0u64, 0u32, 0u64, 0, e0, e1)); }' % {'SATM': satmod, 'SIGM': sigmod, 'SAT': SAT, 'SIG': SIG}))
+    A(('after', 'asm.put_U64(cell_mask, cell_cont_len)?;', 0,
+       'proof { assert(asm.bits() =~= vb0 + crate::bits_of_int(sat_mask as int, 64) + crate::bits_of_int(sig_mask as int, 32) + crate::bits_of_int(cell_mask as int, cell_cont_len as nat)); }'))
+    A(('after', '%s::encode(asm, &value.satellite_data)?;' % satmod, 0,
+       'let ghost vb4 = asm.bits();\nlet ghost verif_ps = choose|p: Seq<%(SAT)s>| #![trigger %(SATM)s::rows_enc(p)] p.to_multiset() == vs.to_multiset() && %(SATM)s::sorted_rows(p) && %(SATM)s::rows_enc(p) is Some && vb4 == vb3 + %(SATM)s::rows_enc(p)->Some_0;'
+       % {'SATM': satmod, 'SAT': SAT}))
+    A(('after', '%s::encode(asm, &value.signal_data)?;' % sigmod, 0,
+       'let ghost vb5 = asm.bits();\nlet ghost verif_pc = choose|p: Seq<%(SIG)s>| #![trigger %(SIGM)s::rows_enc(p)] p.to_multiset() == vc.to_multiset() && %(SIGM)s::sorted_rows(p) && %(SIGM)s::rows_enc(p) is Some && vb5 == vb4 + %(SIGM)s::rows_enc(p)->Some_0;\n'
+       'proof { assert(layout_ok(vs, vc, vb0, vb5, sat_mask, sig_mask, cell_mask, cell_cont_len as int, verif_ps, verif_pc)); }'
+       % {'SIGM': sigmod, 'SIG': SIG}))
     vgen.emit_fn(vf, exp, path + ['fn:encode'], sp, label='%s::encode' % '::'.join(path[1:]), indent=ind, keep_pub=True)
     # decode: the parents call the external `decode` (bit-log claim void for MSM); the real text is verified as `decode_checked`
     vf.emit((ind + """#[verifier::external_body]
 pub fn decode(par: &mut Parser) -> (r: Result<DataType, RtcmError>)
     ensures final(par).nz(),
 { unimplemented!() }""").replace('\n', '\n' + ind))
-    vf.emit('\n'.join(ind + l for l in (DEC_SPEC % {'SAT': SAT, 'SIG': SIG}).split('\n')))
+    vf.emit('\n'.join(ind + l for l in (DEC_SPEC % {'SAT': SAT, 'SIG': SIG, 'SATM': satmod, 'SIGM': sigmod}).split('\n')))
     sp = FnSpec(); sp.ret = 'r'; sp.body_props = {'C02', 'C10'}
     sp.rename = 'decode_checked'
     sp.attrs = '#[verifier::rlimit(80)]'
@@ -142,7 +161,19 @@ pub fn decode(par: &mut Parser) -> (r: Result<DataType, RtcmError>)
     vgen.emit_fn(vf, exp, path + ['fn:decode'], sp, label='%s::decode' % '::'.join(path[1:]), indent=ind, keep_pub=True)
 
 
+LAYOUT = '''r is Ok ==> exists|sm: u64, gm: u32, cm: u64, n: int, ps: Seq<%(SAT)s>, pc: Seq<%(SIG)s>|
+        #[trigger] layout_ok(value.satellite_data@, value.signal_data@, old(asm).bits(), final(asm).bits(), sm, gm, cm, n, ps, pc)'''
+
 DEC_SPEC = '''
+// C10, encode side: the whole data segment as written
+pub open spec fn layout_ok(s: Seq<%(SAT)s>, c: Seq<%(SIG)s>, b0: Seq<bool>, b1: Seq<bool>, sm: u64, gm: u32, cm: u64, n: int, ps: Seq<%(SAT)s>, pc: Seq<%(SIG)s>) -> bool {
+    &&& 0 <= n <= 64 && masks_ok(s, c, sm, gm, cm, n)
+    &&& ps.to_multiset() == s.to_multiset() && %(SATM)s::sorted_rows(ps) && %(SATM)s::rows_enc(ps) is Some
+    &&& pc.to_multiset() == c.to_multiset() && %(SIGM)s::sorted_rows(pc) && %(SIGM)s::rows_enc(pc) is Some
+    &&& b1 == b0 + crate::bits_of_int(sm as int, 64) + crate::bits_of_int(gm as int, 32) + crate::bits_of_int(cm as int, n as nat)
+            + %(SATM)s::rows_enc(ps)->Some_0 + %(SIGM)s::rows_enc(pc)->Some_0
+}
+
 // C10, decode side: the rows delivered are exactly the cells of the three masks read from the wire, in row-major order
 pub open spec fn decoded_ok(rest: Seq<bool>, sm: u64, gm: u32, cm: u64, s: Seq<%(SAT)s>, c: Seq<%(SIG)s>) -> bool {
     let sats = crate::msg::ids64(sm, 64); let sigs = crate::msg::ids32(gm, 32); let n = sats.len() * sigs.len();
